@@ -117,7 +117,13 @@ class _PieceReader:
     async def read(self, n):
         import asyncio
         await asyncio.sleep(0)
-        return self.pieces.pop(0) if self.pieces else b""
+        if not self.pieces:
+            return b""
+        p = self.pieces.pop(0)
+        if isinstance(n, int) and 0 < n < len(p):          # a stream reader never returns more than it was asked for
+            self.pieces.insert(0, p[n:])
+            p = p[:n]
+        return p
 
     async def readline(self):
         import asyncio
@@ -411,3 +417,30 @@ def gen_transport(rng, tier):
             pieces = comp_buf.cuts_to_pieces(data, cuts)
             for kind in (["client", "client-blob", "server"] if thorough or len(cuts) > 1 else [rng.choice(["client", "client-blob", "server"])]):
                 yield {"op": "transport", "handler": kind, "pieces": [p.hex() for p in pieces]}
+    # bursts whose length is exactly a size named by a constant of the transport source (the read size), or a multiple of it,
+    # arriving in reads of exactly that size, after which the peer is quiet and closes: every message must still be delivered
+    files = ["indi/transport/client/tcp.py", "indi/transport/server/tcp.py", "indi/transport/server/tty.py", "indi/transport/buffer.py",
+             "indi/transport/client/__init__.py", "indi/transport/server/__init__.py"]
+    for c in comp_buf.int_constants(files, floor=64):
+        if c > 16384:
+            continue
+        for mult in (1, 2, 3):
+            total = c * mult
+            msgs, k = [], 0
+            while True:
+                m = '<setTextVector device="D" name="P%d" state="Ok"><oneText name="e">v%d</oneText></setTextVector>\n' % (k, k)
+                if sum(len(x) for x in msgs) + len(m) + 60 > total:
+                    break
+                msgs.append(m)
+                k += 1
+            used = sum(len(x) for x in msgs)
+            pad = total - used - len('<message device="D" message=""/>\n')
+            if pad < 0 or pad > 1500:
+                continue
+            msgs.append('<message device="D" message="%s"/>\n' % ("p" * pad))
+            data = "".join(msgs).encode("ascii")
+            assert len(data) == total
+            for size in {c, total}:
+                pieces = [data[i:i + size] for i in range(0, total, size)]
+                for kind in ("client", "client-blob", "server"):
+                    yield {"op": "transport", "handler": kind, "pieces": [p.hex() for p in pieces], "exact": c}
